@@ -114,6 +114,9 @@ def oracle(case, rec):
     n_s, n_p, n_e = len(ir.state_names(m)), len(m["params"]), len(m["events"])
     base_m = copy.deepcopy(m)
     base_m["state_style"], base_m["param_style"] = "list", "list"
+    base_m["bracket_refs"] = False
+    if m.get("bracket_refs"):
+        rec.label("equations:bracket-spelling-of-range-states")
     var_m = _variant(case)
     builds = {}
     try:
